@@ -21,6 +21,8 @@
 (*   Commit           - db.write_opt(batch) / fjall batch.commit()         *)
 (*   ScanOpen/ScanDrain - scan_members creates the iterator, the caller    *)
 (*                      drains it later                                    *)
+(*   Get/Scan         - get_wide_column / scan_members drained at once:    *)
+(*                      only the family cache can change                   *)
 (*   Reopen           - drop(Arc<Impl>) ; open(path)                       *)
 (*                                                                         *)
 (* Switches that model the code AS IT IS where it leaves the contract:     *)
@@ -36,6 +38,24 @@
 (*       can share one physical key; Alias lists such pairs <<c1, c2>>     *)
 (*       (c1 is stored in c2's slot).  kv_replay computes the pairs for    *)
 (*       each concrete key family and backend.                             *)
+(*                                                                         *)
+(* Column families (rocksdb.rs get_or_create_cf_from_cf_identifier,        *)
+(* fjall.rs get_or_create_keyspace): the content of a column lives in a    *)
+(* family that is looked up / created lazily by the FIRST operation that   *)
+(* touches the column in a session (= between open and close).  The        *)
+(* session cache `cfmap` is keyed by the column only; the kind of the      *)
+(* touching call site (wide column / key of set) is used on a cache MISS   *)
+(* only, to build the family's name.  Every call site must therefore name  *)
+(* the column's own family; then which operation touched a column first    *)
+(* can never matter (ResultsIgnoreTouched, OwnFamilyOnly).                 *)
+(*   TrackTouch = TRUE : keep the per-session cache (`touched` = columns   *)
+(*       bound in this session).  FALSE: every access resolves as on a     *)
+(*       miss (keeps the big configurations small).                        *)
+(*   MisTag # {} : MUTATION.  The listed call-site forms ("sb_rem" = a     *)
+(*       member delete staged in a serialization buffer, ...) carry the    *)
+(*       wrong kind: on a cache miss they open (create) the column's       *)
+(*       OTHER family `alt` and bind the column to it for the session.     *)
+(*       Contract and code as shipped: {}.                                 *)
 (* With the switches at their contract values TLC proves the invariants    *)
 (* below for the bounded configuration; with a switch at its as-is value   *)
 (* TLC produces exactly the corresponding class of wrong reads.            *)
@@ -46,10 +66,17 @@ CONSTANTS WCols,   \* wide columns; the replay uses W1 (Prefixed) and W2 (Suffix
           SCols,   \* key-of-set columns S1, S2
           Keys, VTypes, Vals, Elems,
           MaxBatches, MaxBufs, MaxIters, MaxOps,
-          AtomicCommit, SnapshotScan, Alias
+          AtomicCommit, SnapshotScan, Alias,
+          TrackTouch, MisTag
 
 Cells == WCols \X Keys \X VTypes
 SetIds == SCols \X Keys
+Cols == WCols \cup SCols
+
+(* call-site forms that resolve a column family *)
+WForms == {"wb_put", "wb_del", "sb_put", "sb_del", "get"}
+SForms == {"wb_ins", "wb_rem", "sb_ins", "sb_rem", "scan"}
+Forms == WForms \cup SForms
 
 PutOps == [k : {"put"}, c : WCols, key : Keys, x : VTypes, val : Vals]
 DelOps == [k : {"del"}, c : WCols, key : Keys, x : VTypes, val : {0}]
@@ -63,14 +90,31 @@ VARIABLES wide,    \* [Cells -> {0} \cup Vals]; 0 = absent   (physical slots)
           sbuf,    \* [1..MaxBufs -> [st, ops]]
           iters,   \* [1..MaxIters -> [st, c, key, snap, must, may]]
           log,     \* history: committed batches, in commit order
-          nops     \* ops issued so far (bound)
+          nops,    \* ops issued so far (bound)
+          cfmap,   \* [Cols -> {"none", "own", "alt"}]: family the column is bound to in this session
+          awide,   \* content of the OTHER family of a wide column (only a mis-tagged call site opens it)
+          asets    \* content of the OTHER family of a set column
 
-vars == <<wide, sets, batch, sbuf, iters, log, nops>>
+vars == <<wide, sets, batch, sbuf, iters, log, nops, cfmap, awide, asets>>
+fvars == <<cfmap, awide, asets>>
 
 FreeBatch == [st |-> "free", ops |-> <<>>, applied |-> 0]
 FreeBuf == [st |-> "free", ops |-> <<>>]
-FreeIter == [st |-> "free", c |-> "-", key |-> "-",
+FreeIter == [st |-> "free", c |-> "-", key |-> "-", f |-> "-",
              snap |-> {}, must |-> {}, may |-> {}]
+
+(* ---- column families ---- *)
+(* columns opened in this session *)
+touched == {c \in Cols : cfmap[c] # "none"}
+(* family a call site of form `form` names when the cache misses *)
+ResolveOnMiss(form) == IF form \in MisTag THEN "alt" ELSE "own"
+(* family an access of form `form` to column c uses under the cache m *)
+FamUnder(m, c, form) == IF m[c] # "none" THEN m[c] ELSE ResolveOnMiss(form)
+FamOf(c, form) == FamUnder(cfmap, c, form)
+(* the access binds the column for the rest of the session *)
+Touch(m, c, f) == IF TrackTouch /\ m[c] = "none" THEN [m EXCEPT ![c] = f] ELSE m
+(* an op with the family handle it holds once it sits in a write batch *)
+Bound(op, f) == [k |-> op.k, c |-> op.c, key |-> op.key, x |-> op.x, val |-> op.val, f |-> f]
 
 (* Physical slot of a logical cell (identity unless the cell is aliased). *)
 Canon(cell) == IF \E p \in Alias : p[1] = cell
@@ -99,9 +143,11 @@ Flat(l) == IF l = <<>> THEN <<>> ELSE Head(l) \o Flat(Tail(l))
 (* two-byte discriminant vs key [05 81] with a one-byte discriminant.      *)
 AliasDemo == {<< <<"W1", "K1", "V2">>, <<"W1", "K2", "V1">> >>}
 
-(* What the API returns. *)
-GetResult(c, key, vt) == wide[Canon(<<c, key, vt>>)]
-ScanResult(c, key) == sets[<<c, key>>]
+(* What the API returns (through the session's family cache). *)
+ReadWide(f, cell) == IF f = "alt" THEN awide[Canon(cell)] ELSE wide[Canon(cell)]
+ReadSet(f, sid) == IF f = "alt" THEN asets[sid] ELSE sets[sid]
+GetResult(c, key, vt) == ReadWide(FamOf(c, "get"), <<c, key, vt>>)
+ScanResult(c, key) == ReadSet(FamOf(c, "scan"), <<c, key>>)
 
 Init ==
     /\ wide = [cell \in Cells |-> 0]
@@ -111,6 +157,9 @@ Init ==
     /\ iters = [i \in 1..MaxIters |-> FreeIter]
     /\ log = <<>>
     /\ nops = 0
+    /\ cfmap = [c \in Cols |-> "none"]
+    /\ awide = [cell \in Cells |-> 0]
+    /\ asets = [s \in SetIds |-> {}]
 
 Applying == \E b \in 1..MaxBatches : batch[b].st = "applying"
 
@@ -118,62 +167,85 @@ Applying == \E b \in 1..MaxBatches : batch[b].st = "applying"
 OpenBatch(b) ==
     /\ batch[b].st = "free"
     /\ batch' = [batch EXCEPT ![b] = [FreeBatch EXCEPT !.st = "open"]]
-    /\ UNCHANGED <<wide, sets, sbuf, iters, log, nops>>
+    /\ UNCHANGED <<wide, sets, sbuf, iters, log, nops, fvars>>
 
-(* WriteBatch::put / delete / insert_member / delete_member *)
+(* WriteBatch::put / delete / insert_member / delete_member: the family   *)
+(* handle is resolved NOW (first touch) and kept in the batch.             *)
 BatchOp(b, op) ==
     /\ batch[b].st = "open" /\ nops < MaxOps
-    /\ batch' = [batch EXCEPT ![b].ops = Append(@, op)]
+    /\ LET f == FamOf(op.c, "wb_" \o op.k) IN
+       /\ batch' = [batch EXCEPT ![b].ops = Append(@, Bound(op, f))]
+       /\ cfmap' = Touch(cfmap, op.c, f)
     /\ nops' = nops + 1
-    /\ UNCHANGED <<wide, sets, sbuf, iters, log>>
+    /\ UNCHANGED <<wide, sets, sbuf, iters, log, awide, asets>>
 
 (* db.serialization_buffer() *)
 OpenBuf(s) ==
     /\ sbuf[s].st = "free"
     /\ sbuf' = [sbuf EXCEPT ![s] = [FreeBuf EXCEPT !.st = "open"]]
-    /\ UNCHANGED <<wide, sets, batch, iters, log, nops>>
+    /\ UNCHANGED <<wide, sets, batch, iters, log, nops, fvars>>
 
-(* SerializationBuffer::put / delete / insert_member / delete_member *)
+(* SerializationBuffer::put / delete / insert_member / delete_member: only *)
+(* bytes and a (column id, kind) tag are staged, no family is touched.     *)
 BufOp(s, op) ==
     /\ sbuf[s].st = "open" /\ nops < MaxOps
-    /\ sbuf' = [sbuf EXCEPT ![s].ops = Append(@, op)]
+    /\ sbuf' = [sbuf EXCEPT ![s].ops = Append(@, Bound(op, "none"))]
     /\ nops' = nops + 1
-    /\ UNCHANGED <<wide, sets, batch, iters, log>>
+    /\ UNCHANGED <<wide, sets, batch, iters, log, fvars>>
+
+(* consume: the staged ops resolve their families one after the other;    *)
+(* result <<bound ops, cache afterwards>>                                  *)
+RECURSIVE BindSeq(_, _)
+BindSeq(m, ops) ==
+    IF ops = <<>> THEN <<<<>>, m>>
+    ELSE LET o == Head(ops)
+             f == FamUnder(m, o.c, "sb_" \o o.k)
+             r == BindSeq(Touch(m, o.c, f), Tail(ops))
+         IN <<(<<Bound(o, f)>> \o r[1]), r[2]>>
 
 (* WriteBatch::consume_serialization_buffer *)
 Consume(b, s) ==
     /\ batch[b].st = "open" /\ sbuf[s].st = "open"
-    /\ batch' = [batch EXCEPT ![b].ops = @ \o sbuf[s].ops]
+    /\ LET r == BindSeq(cfmap, sbuf[s].ops) IN
+       /\ batch' = [batch EXCEPT ![b].ops = @ \o r[1]]
+       /\ cfmap' = r[2]
     /\ sbuf' = [sbuf EXCEPT ![s] = FreeBuf]
-    /\ UNCHANGED <<wide, sets, iters, log, nops>>
+    /\ UNCHANGED <<wide, sets, iters, log, nops, awide, asets>>
 
 DropBuf(s) ==
     /\ sbuf[s].st = "open"
     /\ sbuf' = [sbuf EXCEPT ![s] = FreeBuf]
-    /\ UNCHANGED <<wide, sets, batch, iters, log, nops>>
+    /\ UNCHANGED <<wide, sets, batch, iters, log, nops, fvars>>
 
-(* Open iterators: what they must / may still yield after a state change. *)
-TrackIters(newsets) ==
+(* Open iterators: what they must / may still yield after a state change   *)
+(* (an iterator reads the family it was created on).                       *)
+TrackIters(newsets, newasets) ==
     [i \in 1..MaxIters |->
         IF iters[i].st = "open"
-        THEN [iters[i] EXCEPT !.must = @ \cap newsets[<<iters[i].c, iters[i].key>>],
-                              !.may = @ \cup newsets[<<iters[i].c, iters[i].key>>]]
+        THEN LET now == IF iters[i].f = "alt" THEN newasets[<<iters[i].c, iters[i].key>>]
+                        ELSE newsets[<<iters[i].c, iters[i].key>>]
+             IN [iters[i] EXCEPT !.must = @ \cap now, !.may = @ \cup now]
         ELSE iters[i]]
 
 (* An empty batch leaves no trace (keeps the history, hence the state     *)
 (* space, finite).                                                         *)
 Logged(ops) == IF ops = <<>> THEN log ELSE Append(log, ops)
 
+(* every op lands in the family whose handle the batch holds *)
+InFam(ops, f) == SelectSeq(ops, LAMBDA o : o.f = f)
+
 (* WriteBatch::commit as the contract has it: one step. *)
 Commit(b) ==
     /\ AtomicCommit
     /\ batch[b].st = "open"
-    /\ wide' = FoldWide(wide, batch[b].ops)
-    /\ sets' = FoldSets(sets, batch[b].ops)
-    /\ iters' = TrackIters(sets')
+    /\ wide' = FoldWide(wide, InFam(batch[b].ops, "own"))
+    /\ sets' = FoldSets(sets, InFam(batch[b].ops, "own"))
+    /\ awide' = FoldWide(awide, InFam(batch[b].ops, "alt"))
+    /\ asets' = FoldSets(asets, InFam(batch[b].ops, "alt"))
+    /\ iters' = TrackIters(sets', asets')
     /\ log' = Logged(batch[b].ops)
     /\ batch' = [batch EXCEPT ![b] = FreeBatch]
-    /\ UNCHANGED <<sbuf, nops>>
+    /\ UNCHANGED <<sbuf, nops, cfmap>>
 
 (* ... and as fjall applies it for readers that do not take a snapshot:   *)
 (* the journal lock serialises committers, items become readable one by   *)
@@ -182,37 +254,67 @@ CommitBegin(b) ==
     /\ ~AtomicCommit
     /\ batch[b].st = "open" /\ ~Applying
     /\ batch' = [batch EXCEPT ![b].st = "applying"]
-    /\ UNCHANGED <<wide, sets, sbuf, iters, log, nops>>
+    /\ UNCHANGED <<wide, sets, sbuf, iters, log, nops, fvars>>
 
 CommitStep(b) ==
     /\ ~AtomicCommit
     /\ batch[b].st = "applying"
     /\ IF batch[b].applied < Len(batch[b].ops)
        THEN LET op == batch[b].ops[batch[b].applied + 1] IN
-            /\ wide' = ApplyWide(wide, op)
-            /\ sets' = ApplySets(sets, op)
-            /\ iters' = TrackIters(sets')
+            /\ IF op.f = "alt"
+               THEN /\ awide' = ApplyWide(awide, op)
+                    /\ asets' = ApplySets(asets, op)
+                    /\ UNCHANGED <<wide, sets>>
+               ELSE /\ wide' = ApplyWide(wide, op)
+                    /\ sets' = ApplySets(sets, op)
+                    /\ UNCHANGED <<awide, asets>>
+            /\ iters' = TrackIters(sets', asets')
             /\ batch' = [batch EXCEPT ![b].applied = @ + 1]
             /\ UNCHANGED log
        ELSE /\ log' = Logged(batch[b].ops)
             /\ batch' = [batch EXCEPT ![b] = FreeBatch]
-            /\ UNCHANGED <<wide, sets, iters>>
-    /\ UNCHANGED <<sbuf, nops>>
+            /\ UNCHANGED <<wide, sets, iters, awide, asets>>
+    /\ UNCHANGED <<sbuf, nops, cfmap>>
 
 (* drop(batch) without commit *)
 DropBatch(b) ==
     /\ batch[b].st = "open"
     /\ batch' = [batch EXCEPT ![b] = FreeBatch]
-    /\ UNCHANGED <<wide, sets, sbuf, iters, log, nops>>
+    /\ UNCHANGED <<wide, sets, sbuf, iters, log, nops, fvars>>
+
+(* get_wide_column / scan_members drained at once: nothing changes but    *)
+(* the family cache (a read is a first touch like any other).              *)
+Get(c) ==
+    /\ c \in WCols
+    /\ cfmap' = Touch(cfmap, c, FamOf(c, "get"))
+    /\ UNCHANGED <<wide, sets, batch, sbuf, iters, log, nops, awide, asets>>
+
+Scan(c) ==
+    /\ c \in SCols
+    /\ cfmap' = Touch(cfmap, c, FamOf(c, "scan"))
+    /\ UNCHANGED <<wide, sets, batch, sbuf, iters, log, nops, awide, asets>>
+
+(* the harness' "read everything": every cell and every set is read *)
+RECURSIVE TouchAll(_, _)
+TouchAll(m, cs) ==
+    IF cs = {} THEN m
+    ELSE LET c == CHOOSE x \in cs : TRUE
+         IN TouchAll(Touch(m, c, FamUnder(m, c, IF c \in WCols THEN "get" ELSE "scan")), cs \ {c})
+
+Sweep ==
+    /\ cfmap' = TouchAll(cfmap, Cols)
+    /\ UNCHANGED <<wide, sets, batch, sbuf, iters, log, nops, awide, asets>>
 
 (* scan_members: the iterator is created now ... *)
 ScanOpen(i, c, key) ==
     /\ iters[i].st = "free"
-    /\ iters' = [iters EXCEPT ![i] = [st |-> "open", c |-> c, key |-> key,
-                                      snap |-> sets[<<c, key>>],
-                                      must |-> sets[<<c, key>>],
-                                      may |-> sets[<<c, key>>]]]
-    /\ UNCHANGED <<wide, sets, batch, sbuf, log, nops>>
+    /\ LET f == FamOf(c, "scan") IN
+       /\ iters' = [iters EXCEPT ![i] = [st |-> "open", c |-> c, key |-> key, f |-> f,
+                                         snap |-> ReadSet(f, <<c, key>>),
+                                         must |-> ReadSet(f, <<c, key>>),
+                                         may |-> ReadSet(f, <<c, key>>)]]
+       /\ cfmap' = Touch(cfmap, c, f)
+    /\ UNCHANGED <<wide, sets, batch, sbuf, log, nops, awide, asets>>
 
 (* ... and drained later. *)
 DrainResults(i) == IF SnapshotScan THEN {iters[i].snap}
@@ -221,15 +323,17 @@ DrainResults(i) == IF SnapshotScan THEN {iters[i].snap}
 ScanDrain(i) ==
     /\ iters[i].st = "open"
     /\ iters' = [iters EXCEPT ![i] = FreeIter]
-    /\ UNCHANGED <<wide, sets, batch, sbuf, log, nops>>
+    /\ UNCHANGED <<wide, sets, batch, sbuf, log, nops, fvars>>
 
-(* drop every handle, open the same directory again *)
+(* drop every handle, open the same directory again: the families and     *)
+(* their content stay, the session cache is empty again                    *)
 Reopen ==
     /\ ~Applying
     /\ batch' = [b \in 1..MaxBatches |-> FreeBatch]
     /\ sbuf' = [s \in 1..MaxBufs |-> FreeBuf]
     /\ iters' = [i \in 1..MaxIters |-> FreeIter]
-    /\ UNCHANGED <<wide, sets, log, nops>>
+    /\ cfmap' = [c \in Cols |-> "none"]
+    /\ UNCHANGED <<wide, sets, log, nops, awide, asets>>
 
 Next ==
     \/ \E b \in 1..MaxBatches :
@@ -238,6 +342,7 @@ Next ==
           \/ (\E s \in 1..MaxBufs : Consume(b, s))
     \/ \E s \in 1..MaxBufs : OpenBuf(s) \/ DropBuf(s) \/ (\E op \in Ops : BufOp(s, op))
     \/ \E i \in 1..MaxIters : ScanDrain(i) \/ (\E c \in SCols, key \in Keys : ScanOpen(i, c, key))
+    \/ (TrackTouch /\ \E c \in Cols : Get(c) \/ Scan(c))   \* without the cache a read changes nothing
     \/ Reopen
 
 Spec == Init /\ [][Next]_vars
@@ -264,6 +369,10 @@ TypeOK ==
     /\ sets \in [SetIds -> SUBSET Elems]
     /\ \A b \in 1..MaxBatches : batch[b].st \in {"free", "open", "applying"}
     /\ nops \in 0..MaxOps
+    /\ cfmap \in [Cols -> {"none", "own", "alt"}]
+    /\ awide \in [Cells -> {0} \cup Vals]
+    /\ asets \in [SetIds -> SUBSET Elems]
+    /\ TrackTouch \in BOOLEAN /\ MisTag \subseteq Forms
 
 (* point reads: last committed value of exactly that column, key, type *)
 ReadsLastCommitted ==
@@ -281,12 +390,36 @@ ScansExactMembers ==
 IterSound ==
     \A i \in 1..MaxIters : iters[i].st = "open" =>
         /\ iters[i].must \subseteq iters[i].snap /\ iters[i].snap \subseteq iters[i].may
-        /\ iters[i].must \subseteq sets[<<iters[i].c, iters[i].key>>]
-        /\ sets[<<iters[i].c, iters[i].key>>] \subseteq iters[i].may
+        /\ iters[i].must \subseteq ReadSet(iters[i].f, <<iters[i].c, iters[i].key>>)
+        /\ ReadSet(iters[i].f, <<iters[i].c, iters[i].key>>) \subseteq iters[i].may
+
+(* First touch.  Which families could a session bind column c to?  One per *)
+(* call-site form that can be the first to touch it.                       *)
+PossibleFams(c) == {ResolveOnMiss(fm) : fm \in (IF c \in WCols THEN WForms ELSE SForms)}
+
+(* The result of a read never depends on `touched`: whatever this session  *)
+(* has touched so far, and whichever operation a session touches the       *)
+(* column with first, every read returns the same as the read through this *)
+(* session's cache.                                                        *)
+ResultsIgnoreTouched ==
+    /\ \A c \in WCols, key \in Keys, vt \in VTypes : \A f \in PossibleFams(c) :
+          ReadWide(f, <<c, key, vt>>) = GetResult(c, key, vt)
+    /\ \A c \in SCols, key \in Keys : \A f \in PossibleFams(c) :
+          ReadSet(f, <<c, key>>) = ScanResult(c, key)
+
+(* mechanism: a column is only ever bound to the family of its own kind,   *)
+(* nothing is ever written anywhere else, and without a session cache      *)
+(* nothing is bound at all                                                  *)
+OwnFamilyOnly ==
+    /\ \A c \in Cols : cfmap[c] \in {"none", "own"}
+    /\ \A cell \in Cells : awide[cell] = 0
+    /\ \A s \in SetIds : asets[s] = {}
+    /\ \A b \in 1..MaxBatches : \A i \in 1..Len(batch[b].ops) : batch[b].ops[i].f = "own"
+    /\ ~TrackTouch => touched = {}
 
 (* Only a commit changes what is readable: opening, filling, consuming,    *)
 (* dropping, scanning and reopening leave the committed maps alone         *)
 (* (uncommitted batches are invisible; content survives reopen).           *)
 OnlyCommitChanges ==
-    [][log' = log => (wide' = wide /\ sets' = sets)]_vars
+    [][log' = log => (wide' = wide /\ sets' = sets /\ awide' = awide /\ asets' = asets)]_vars
 =============================================================================
